@@ -23,7 +23,7 @@ from dataclasses import dataclass, field
 from fractions import Fraction
 from typing import Any, Iterable
 
-from ..engine.absint import Obj, _Raise
+from ..engine.absint import Infeasible, Obj, _Raise
 from ..engine.order import Atom, Expr, OrderInterp
 from ..engine.report import AnalysisError
 from ..engine.resolver import FuncInfo, Program, walk_no_nested
@@ -61,6 +61,51 @@ def proportional(p: Poly, w: Poly) -> Fraction | None:
     return k if k != 0 else None
 
 
+class Unknown:
+    """A value the analysis knows nothing about (remembered instance state): every test on it forks."""
+
+    def __init__(self, name: str) -> None:
+        self.name = name
+
+    def __repr__(self) -> str:
+        return f"<{self.name}>"
+
+
+class Havoc:
+    """A container attribute of the instance in an arbitrary state: whatever earlier calls may have
+    left in it.  Lookups fork (absent / present with an Unknown value); what this run stores is
+    remembered, so that a read after a write of the same key is exact."""
+
+    def __init__(self, name: str) -> None:
+        self.name = name
+        self.written: dict[Any, Any] = {}
+
+    def __repr__(self) -> str:
+        return f"<self.{self.name}>"
+
+
+def instance_state(prog: Program, cls: Any, **known: Any) -> Obj:
+    """A record of the analysed class: the attributes given in `known` have these values; every other
+    attribute bound in __init__ is in an arbitrary state (Havoc container / Unknown scalar)."""
+    fields: dict[str, Any] = {}
+    init = prog.resolve_method(cls, "__init__")
+    if init is not None and init.params:
+        me = init.params[0]
+        for n in walk_no_nested(init.node):
+            tgt = val = None
+            if isinstance(n, ast.Assign) and len(n.targets) == 1:
+                tgt, val = n.targets[0], n.value
+            elif isinstance(n, ast.AnnAssign):
+                tgt, val = n.target, n.value
+            if isinstance(tgt, ast.Attribute) and isinstance(tgt.value, ast.Name) and tgt.value.id == me:
+                container = isinstance(val, (ast.Dict, ast.Set, ast.List, ast.DictComp, ast.SetComp, ast.ListComp)) or (
+                    isinstance(val, ast.Call) and isinstance(val.func, ast.Name)
+                    and val.func.id in ("dict", "set", "list", "defaultdict", "OrderedDict", "deque"))
+                fields[tgt.attr] = Havoc(tgt.attr) if container else Unknown(f"self.{tgt.attr}")
+    fields.update(known)
+    return Obj(cls.name, **fields)
+
+
 class NotReached(AnalysisError):
     """The entry function, called as specified, returns without ever calling the sweep."""
 
@@ -77,12 +122,78 @@ class LinInterp(OrderInterp):
     def __init__(self, prog: Program, module: Any) -> None:
         super().__init__(prog, module)
         self.capture: FuncInfo | None = None  # function whose next call is to be captured, not entered
+        self.state_reads: list[str] = []      # instance attributes in an arbitrary state consulted by this run
+        self.last_return: ast.AST | None = None
         # constraints added by undecided linear comparisons of this run: (P, strict) == P < 0 / P <= 0
         self.lin_facts: list[tuple[Poly, bool]] = []
 
     def reset(self) -> None:
         super().reset()
         self.lin_facts = []
+        self.state_reads = []
+        self.last_return = None
+
+    def stmt(self, s: ast.stmt) -> None:
+        if isinstance(s, ast.Return):
+            self.last_return = s
+        super().stmt(s)
+
+    # ---------------------------------------------------------------- arbitrary instance state
+    def _state_read(self, name: str) -> None:
+        if name not in self.state_reads:
+            self.state_reads.append(name)
+
+    def get_attr(self, base: Any, attr: str, node: ast.AST) -> Any:
+        if isinstance(base, Havoc):
+            return ("havoc", base, attr)
+        if isinstance(base, Unknown):
+            return Unknown(f"{base.name}.{attr}")
+        return super().get_attr(base, attr, node)
+
+    def _havoc_lookup(self, h: Havoc, key: Any, node: ast.AST) -> tuple[bool, Any]:
+        k = self.key(key)
+        try:
+            if k in h.written:
+                return True, h.written[k]
+        except TypeError:
+            pass
+        self._state_read(h.name)
+        if self.choose(2, f"self.{h.name} has an entry for the key") == 0:
+            return False, None
+        return True, Unknown(f"self.{h.name}[...]")
+
+    def get_item(self, base: Any, key: Any, node: ast.AST) -> Any:
+        if isinstance(base, Havoc):
+            found, v = self._havoc_lookup(base, key, node)
+            if not found:
+                raise _Raise("KeyError", node)
+            return v
+        if isinstance(base, Unknown):
+            return Unknown(f"{base.name}[...]")
+        return super().get_item(base, key, node)
+
+    def set_item(self, base: Any, key: Any, v: Any, node: ast.AST) -> None:
+        if isinstance(base, Havoc):
+            try:
+                base.written[self.key(key)] = v
+            except TypeError:
+                raise AnalysisError(f"unhashable key stored in self.{base.name}") from None
+            return
+        super().set_item(base, key, v, node)
+
+    def contains(self, container: Any, item: Any, node: ast.AST) -> bool:
+        if isinstance(container, Havoc):
+            return self._havoc_lookup(container, item, node)[0]
+        if isinstance(container, Unknown) or isinstance(item, Unknown):
+            return self.choose(2, f"membership test on {container!r}") == 1
+        return super().contains(container, item, node)
+
+    def identical(self, a: Any, b: Any) -> bool:
+        if isinstance(a, Unknown) or isinstance(b, Unknown):
+            if a is None or b is None:
+                return False  # a present entry: the stores of the analysed class never hold None
+            return self.choose(2, f"{a!r} is {b!r}") == 1
+        return super().identical(a, b)
 
     # ---------------------------------------------------------------- linear forms
     def _lin(self, v: Any) -> Lin | None:
@@ -143,6 +254,8 @@ class LinInterp(OrderInterp):
         return super().unaryop(op, v, node)
 
     def compare_values(self, op: ast.cmpop, a: Any, b: Any, node: ast.AST) -> Any:
+        if isinstance(a, Unknown) or isinstance(b, Unknown):
+            return self.choose(2, f"{a!r} {type(op).__name__} {b!r}") == 1
         if isinstance(a, (tuple, list)) and isinstance(b, (tuple, list)) and isinstance(op, (ast.Eq, ast.NotEq)) \
                 and type(a) is type(b):
             eq = len(a) == len(b) and all(self.concrete_eq(x, y, node) for x, y in zip(a, b))
@@ -221,6 +334,11 @@ class LinInterp(OrderInterp):
         return res
 
     def truth_of(self, v: Any, node: ast.AST | None) -> bool:
+        if isinstance(v, Unknown):
+            return self.choose(2, f"truth of {v!r}") == 1
+        if isinstance(v, Havoc):
+            self._state_read(v.name)
+            return self.choose(2, f"self.{v.name} is non-empty") == 1
         if isinstance(v, Obj) and "__opaque__" in v.fields:
             raise AnalysisError(f"truth value of the result of the unmodelled call {v.fields['__opaque__'][4:]}() "
                                 f"(line {getattr(node, 'lineno', '?')})")
@@ -245,6 +363,30 @@ class LinInterp(OrderInterp):
             self.module_stack.pop()
 
     def apply(self, fn: Any, pos: list[Any], kw: dict[str, Any], node: ast.AST) -> Any:
+        if isinstance(fn, Unknown):
+            return Unknown(f"{fn.name}()")
+        if isinstance(fn, tuple) and fn and fn[0] == "havoc":
+            h, m = fn[1], fn[2]
+            if m == "get" and pos:
+                found, v = self._havoc_lookup(h, pos[0], node)
+                return v if found else (pos[1] if len(pos) > 1 else kw.get("default"))
+            if m == "setdefault" and pos:
+                found, v = self._havoc_lookup(h, pos[0], node)
+                if not found:
+                    v = pos[1] if len(pos) > 1 else None
+                    self.set_item(h, pos[0], v, node)
+                return v
+            if m == "pop" and pos:
+                found, v = self._havoc_lookup(h, pos[0], node)
+                if found:
+                    return v
+                if len(pos) > 1:
+                    return pos[1]
+                raise _Raise("KeyError", node)
+            if m in ("add", "append", "update", "discard", "remove", "clear"):
+                self._state_read(h.name)
+                return None
+            raise AnalysisError(f"self.{h.name}.{m}() on remembered instance state is not modelled")
         # static / class methods reached through an instance or through the class name
         if isinstance(fn, tuple) and fn and fn[0] == "bound" and isinstance(fn[1], FuncInfo):
             if _is_static(fn[1].node):
@@ -389,13 +531,19 @@ class Sweep:
     U: str = ""
     X: str = ""
     T: str | None = None
+    prog: Program | None = None
+    unreached: list[str] = field(default_factory=list)  # entry paths that returned before the sweep
 
-    def self_obj(self) -> Obj | None:
-        if self.entry.cls is None:
+    def self_obj(self, **known: Any) -> Obj | None:
+        """A record of the analysed class: one (placeholder) proposal in the group's bucket, no target
+        remembered, every other attribute in an arbitrary state."""
+        if self.entry.cls is None or self.prog is None:
             return None
         placeholder = Obj("Proposal", preferred_power=None, bounds=Obj("Bounds", lower=None, upper=None),
                           priority=0, source_id="placeholder")
-        return Obj(self.entry.cls.name, _component_buckets={"ids": [placeholder]}, _target_power={})
+        base: dict[str, Any] = {"_component_buckets": {"ids": [placeholder]}, "_target_power": {}}
+        base.update(known)
+        return instance_state(self.prog, self.entry.cls, **base)
 
     def _self_name(self) -> str | None:
         if self.fn.cls is None or _is_static(self.fn.node) or not self.fn.params:
@@ -423,7 +571,15 @@ class Sweep:
         finally:
             it.capture = None
             del it.frames[depth:]
-        raise NotReached(f"{self.entry.qual}: this call does not reach the sweep in {self.fn.qual}")
+        ret = it.last_return
+        where = f"`{ast.unparse(ret)}` at line {ret.lineno}" if ret is not None else "the end of the function"
+        why = (" on a path decided by remembered instance state (" + ", ".join(f"self.{n}" for n in it.state_reads) + ")"
+               if it.state_reads else "")
+        # such a path is not a path of the sweep: it is dropped here and judged where the entry function
+        # is explored as a whole (C04.RESULT); the caller decides what it means if no path is left
+        self.unreached.append(f"{self.entry.qual} leaves through {where}{why} without running the sweep in "
+                              f"{self.fn.qual}")
+        raise Infeasible()
 
     def frame(self, so: Obj | None = None, **roles: Any) -> dict[str, Any]:
         """Initial frame of one iteration: the scalar arguments the sweep is entered with, state
@@ -512,7 +668,7 @@ def sweep_roles(prog: Program, entry: FuncInfo, entry_sys: str, extra: dict[str,
         raise AnalysisError(f"{fn.qual}: the proposal loop does not bind a single loop variable")
     before = _stored(pro)
     svars = sorted((before | set(fn.params)) & _used([loop]))
-    sw = Sweep(fn, entry, entry_sys, dict(extra), pro, loop, epi, loop.target.id, svars)
+    sw = Sweep(fn, entry, entry_sys, dict(extra), pro, loop, epi, loop.target.id, svars, prog=prog)
     names = sorted(before)
     pfn = synth("prologue", pro, names)
 
@@ -527,15 +683,18 @@ def sweep_roles(prog: Program, entry: FuncInfo, entry_sys: str, extra: dict[str,
             got["frame"] = frame
             return frame
 
-        outs = it.explore(pfn, make)
-        if len(outs) != 1 or outs[0].kind != "return" or not isinstance(outs[0].value, tuple) \
-                or len(outs[0].value) != len(names):
+        outs = it.explore(pfn, make, lambda _res: dict(got))  # each path keeps its own atoms
+        if not outs and sw.unreached:
+            raise NotReached(sw.unreached[0])
+        if not outs or any(o.kind != "return" or not isinstance(o.value, tuple) or len(o.value) != len(names)
+                           for o in outs) or len({repr(o.value) for o in outs}) != 1:
             raise AnalysisError(f"{fn.qual}: the prologue of the sweep is not a straight computation "
                                 f"of the initial state ({len(outs)} abstract paths)")
-        env = dict(got["frame"])  # parameters the sweep is entered with ...
+        mine = outs[0].post
+        env = dict(mine["frame"])  # parameters the sweep is entered with ...
         env.update(zip(names, outs[0].value))  # ... and the locals its prologue binds
         sw.base = {k: v for k, v in env.items() if isinstance(v, (str, int, float, bool, type(None)))}
-        return env, got["incl"], got["excl"], got["zero"]
+        return env, mine["incl"], mine["excl"], mine["zero"]
 
     env, incl, excl, zero = run_prologue("strict")
     in_loop = _stored(loop.body)
